@@ -59,7 +59,7 @@ class C17(Prop):
         "write() comparison is made on the pair directly when the copy is the last operation, otherwise on throw-away "
         "pickle copies of both (write() legitimately refreshes STRT/STOP/STEP in memory)",
     ]
-    quick = {"runs": 28000, "wall": 60}
+    quick = {"runs": 20000, "wall": 60}
     thorough = {"runs": 200000, "wall": 900}
     hash_sensitive = True
 
@@ -84,6 +84,8 @@ class C17(Prop):
         cops = gen_curve_ops(g, n, CNAMES)
         for op in cops:
             ops.append(["curve", op])
+            if g.random() < 0.12:
+                ops.append(["curve", ["retype", g.randrange(8), g.choice(["int", "numstr", "obj", "bool"]), g.randrange(50)]])
             if g.random() < 0.35:
                 sec = g.choice(["well", "params"])
                 ops.append(["sec", sec, gen_ops(g, 1, SNAMES)[0]])
